@@ -92,6 +92,8 @@ Definition c03_expect (op : opk) (n : nat) (l : list (nat * ev)) : option (list 
   | OSample => if Nat.eqb n 2 then (Some (spec_sample None [] flip2), Some (mrun OSample 1 flip2)) else (None, None)
   | OCombineLatest f => (Some (spec_combine_latest f n [] (repeat None n) l), None)
   | OSequenceEqual => if Nat.eqb n 2 then (spec_sequence_equal2 l, None) else (None, None)
+  | OFlatMap SelMod =>       (* inner = others[x mod (n-1)] = source 1 + x mod (n-1) *)
+      if Nat.leb 2 n then (Some (spec_flat_map (fun x => S (Z.to_nat (Z.modulo (as_int x) (Z.of_nat (n - 1))))) true [] [] l), None) else (None, None)
   | _ => (None, None)
   end.
 
